@@ -115,6 +115,17 @@ CHECKS.update({
         ref="4/C02"),
 })
 
+CHECKS.update({
+    "C11": dict(
+        technique="static analysis: install/restore provenance classification of writes to Interpreter.env and run-scoped scratch fields + path-sensitive exit-path search on the MIR CFG; dominance rules for the active-run hand-off in step()/prepare()",
+        text="Decides run-state restoration on all exits: every installation of a fresh current environment (and every take of a "
+             "run-scoped scratch field) reaches each function exit, every `?` included, only through a restore or a hand-off of "
+             "the saved value; step() restores on the error outcome; prepare() disposes of a still-active run. The nine "
+             "violations of the pinned tree (all reproduced with observer programs) were repaired (fix: commit). Frames of a "
+             "run abandoned inside a call are not decided.",
+        ref="4/C11"),
+})
+
 NOT_APPLICABLE = {
     "C04": "value equivalence with the TypeScript emit; no structural mechanism exists (DESIGN.md 4/C04)",
     "C09": "behaviour of a fixed-point loader over all graphs x schedules; structural parts are decided under C02/C19",
